@@ -221,6 +221,22 @@ def run(ctx):
             parts = body.split("|")
             if parts != ["*"]:
                 extra.append(head + "/" + "|".join(parts + parts[:2]))
+        # ranges holding two or three spellings of one version (dense families): which spelling survives simplification
+        # and the order of the tied constraints must not depend on the hash seed either
+        for cname in sorted(n_ for n_ in gens.GEN_BY_CLASS if hasattr(vs, n_)):
+            cls = getattr(vs, cname)
+            rcls = vers.range_class_for(cls)
+            if rcls is None or vr.RANGE_CLASS_BY_SCHEMES.get(rcls.scheme) is not rcls:
+                continue
+            k = 0
+            for fam in dense.families(r, cls, 2):
+                same = [x for x in fam[1:] if x.string != fam[0].string and text.version_text_ok(x.string) and dense.rel(fam[0], x) == "eq"]
+                if not same or not text.version_text_ok(fam[0].string) or k >= 10:
+                    continue
+                k += 1
+                sp = [fam[0].string] + [x.string for x in same[:2]]
+                extra.append(f"vers:{rcls.scheme}/" + "|".join(sp))
+                extra.append(f"vers:{rcls.scheme}/" + "|".join("!=" + t for t in reversed(sp)))
         json.dump(workload[:: max(1, len(workload) // 300)] + extra, open(wl, "w"))
         script = os.path.join(td, "w.py")
         open(script, "w").write(WORKLOAD)
